@@ -45,15 +45,18 @@ Before(c) == c.kind = "Script" \/ c.where = "pre"
 Raise(c) == c.how          \* only called for RaisedHows
 
 ----------------------------------------------------------------------------
-Lock(c, dv, s)      == [s EXCEPT !.lock = c.lock]
-Artifacts(c, dv, s) == [s EXCEPT !.art = c.art]
-LogOpen(c, dv, s)   == [s EXCEPT !.logOpen = c.art]
+\* the lock comes first: a run that is interrupted while it waits for a lock file held by another run
+\* (CancelledError out of _aquire_flock) has not created anything yet and does not own the lock
+Lock(c, dv, s)      == IF FailsAt(c, "LockWait") /\ c.how = "CtrlC" THEN [s EXCEPT !.esc = "Interrupt"]
+                       ELSE [s EXCEPT !.lock = c.lock]
+Artifacts(c, dv, s) == IF ~In(s) THEN s ELSE [s EXCEPT !.art = c.art]
+LogOpen(c, dv, s)   == IF ~In(s) THEN s ELSE [s EXCEPT !.logOpen = c.art]
 
 HookStep(c, dv, s, p) ==
   IF "S21" \in dv THEN [s EXCEPT !.esc = "Error"] ELSE [s EXCEPT !.reported = TRUE]
 
 PreHook(c, dv, s) ==
-  IF ~c.hooks THEN s
+  IF ~In(s) \/ ~c.hooks THEN s
   ELSE LET s1 == [s EXCEPT !.pre = 1]
        IN IF FailsAt(c, "PreHook") /\ c.how = "HookFails" THEN HookStep(c, dv, s1, "pre") ELSE s1
 
@@ -164,7 +167,8 @@ Obs(c, s) ==
    pre      |-> s.pre,
    post     |-> s.post,
    phases   |-> s.phases,
-   reported |-> s.reported]
+   reported |-> s.reported,
+   rundir   |-> s.art]
 
 Predict(c, dv) == Obs(c, RunFrom(1, c, dv, S0))
 
